@@ -147,9 +147,36 @@ def build_field(df, me, f, emb, alt=0):
             foreign = None if alt % 2 else "q"
             kw = dict(vdims=names, vdim_mapping=fldmod.scramble(
                 {names[k]: (dims[mp[k] - 1] if mp[k] else foreign) for k in range(nv)}, alt // 2 + mp[0]))
+    arr = src_array(me, f)
+    if (alt + sum(me["n"]) + nv) % 3 == 0 and np.all(np.isfinite(arr)) and np.array_equal(arr, np.rint(arr)) and float(np.max(np.abs(arr))) < 2**40:
+        # whole numbers given as an INTEGER field (dtype stated): the rotated field interpolates and mixes components, its
+        # values are not whole numbers (seeded change C18-13 gave the rotated field the dtype of the original)
+        arr = np.rint(arr).astype(np.int64)
+        kw["dtype"] = np.int64
     if kw.get("vdim_mapping"):
-        return fldmod.labelled_field(df, mesh, nv, src_array(me, f), kw["vdims"], kw["vdim_mapping"], alt + sum(mp))
-    return df.Field(mesh, nvdim=nv, value=src_array(me, f), **kw)
+        return fldmod.labelled_field(df, mesh, nv, arr, kw["vdims"], kw["vdim_mapping"], alt + sum(mp), **({"dtype": kw["dtype"]} if "dtype" in kw else {}))
+    return df.Field(mesh, nvdim=nv, value=arr, **kw)
+
+
+def seasoned_rotator(df, field, salt):
+    """FieldRotator(field) - for every second `salt` a rotator with a PAST: it has already rotated the field while the field's
+    array held other values (zeros), was cleared, and the values were written back in place.  "Clearing restores the original"
+    and "rotations always start from the original field": nothing of the earlier rotation may survive.  (Seeded changes
+    C18-11 kept the inverse rotation across clear_rotation, C18-12 memoised the interpolator of a scalar field.)"""
+    rotor = df.FieldRotator(field)
+    if int(salt) % 2:
+        return rotor
+    try:
+        keep = field.array.copy()
+        field.array[...] = 0
+        try:
+            rotor.rotate("from_euler", "z", 0.3, n=(2, 2, 2))
+            rotor.clear_rotation()
+        finally:
+            field.array[...] = keep
+    except Exception:  # noqa: BLE001  (judged by the calls that follow)
+        return df.FieldRotator(field)
+    return rotor
 
 
 def centre_q(me):
@@ -228,7 +255,7 @@ def exec_state(df, gens, st, emb, variant, part):
         raise core._tlc.MachineryError(f"cannot build the original field for {me} {f['kind']}: {ex!r}")
     refused, where = False, None
     try:
-        rotor = df.FieldRotator(field)
+        rotor = seasoned_rotator(df, field, variant + sum(me["n"]) + f["nv"]) if obs["ok"] else df.FieldRotator(field)
     except Exception as ex:
         refused, where = True, "constructor:" + type(ex).__name__
     if not obs["ok"]:
@@ -382,7 +409,7 @@ def gen_trace(df, rnd, tid, embs):
         f = {"kind": "aff", "nv": 1, "v": [], "map": [], "a": a, "b": rnd.randrange(-3, 4), "src": []}
     alt = rnd.randrange(2)
     field = build_field(df, me, f, emb, alt=alt)
-    rotor = df.FieldRotator(field)
+    rotor = seasoned_rotator(df, field, alt + sum(me["n"]))
     cen = centre_q(me)
     sumE = sum(me["c"][j] * me["n"][j] for j in range(3))
     maxE = max(me["c"][j] * me["n"][j] for j in range(3))
